@@ -20,6 +20,8 @@ def pairings_2d():
                  max_resp=2),
         scenario("datetime_x_mr", [cat("A", 3, miss=[1], subtype="datetime"), mr("B", 2)],
                  max_resp=1, sim_max_resp=4),
+        scenario("mrder_x_cat", [mr("A", 3, derived={1: {"of": [2, 3], "at": "top"}}), cat("B", 2)],
+                 max_resp=2),
     ]
 
 
